@@ -54,6 +54,17 @@ func (c *ScriptCurve) Evaluate() (int, error) {
 	}
 	return c.val, nil
 }
+
+// MarkFirstEval records "regulation would start now" without an evaluation (units that drive the analysis alone).
+func (c *ScriptCurve) MarkFirstEval() {
+	c.mu.Lock()
+	defer c.mu.Unlock()
+	if c.evals == 0 {
+		c.evals = 1
+		c.firstAt = time.Since(c.t0) + time.Nanosecond
+		close(c.FirstEval)
+	}
+}
 func (c *ScriptCurve) CurrentValue() int { c.mu.Lock(); defer c.mu.Unlock(); return c.val }
 func (c *ScriptCurve) Set(v int)         { c.mu.Lock(); c.val = v; c.mu.Unlock() }
 func (c *ScriptCurve) SetErr(e error)    { c.mu.Lock(); c.err = e; c.mu.Unlock() }
